@@ -22,7 +22,7 @@ ASSUMPTIONS = ['for invalid (self-touching) region polygons the code clips with 
 N = {'quick': 2000, 'thorough': 60000}
 CLASSES = ['rect', 'concave', 'bowtie', 'nested', 'overlapping', 'mixed', 'mixed', 'edge_touching', 'extractor', 'simple_extractor']
 REQUIRED = ['helper_calls', 'pairs_checked', 'placed_lines', 'inside_lines_placed_unchanged', 'not_touching_pairs', 'multi_entry_lines', 'invalid_region_pairs',
-            'extractor_pages', 'multi_orientation_line_only_pages', 'simple_extractor_pages']
+            'extractor_pages', 'multi_orientation_line_only_pages', 'simple_extractor_pages', 'simple_extractor_concave_pages']
 SHARDS = {'quick': 8, 'thorough': 16}
 
 
@@ -282,7 +282,14 @@ def check_simple(case, mon, ctx):
     cfg.read_dict({'S': {'ADAPTIVE_THRESHOLD': '21', 'BLOCK_SIZE': '11', 'MINIMUM_LENGTH': '50', 'IGNORED_BORDER_PIXELS': '5'}})
     ex = ctx.pp.TextlineExtractorSimple(cfg['S'])
     pl = L.PageLayout(id='p', page_size=(400, 600))
-    pl.regions = [L.RegionLayout('r1', np.array([[10, 10], [590, 10], [590, 200], [10, 200]])), L.RegionLayout('r2', np.array([[10, 200], [590, 200], [590, 390], [10, 390]]))]
+    if case['seed'] % 2:
+        # a U-shaped region whose text rows cross the notch (two columns in the arms of the U), and a plain one
+        pl.regions = [L.RegionLayout('r1', np.array([[10, 10], [250, 10], [250, 300], [350, 300], [350, 10], [590, 10], [590, 390], [10, 390]])),
+                      L.RegionLayout('r2', np.array([[260, 10], [340, 10], [340, 290], [260, 290]]))]
+        img[:, 250:350] = 255
+        mon.count('simple_extractor_concave_pages')
+    else:
+        pl.regions = [L.RegionLayout('r1', np.array([[10, 10], [590, 10], [590, 200], [10, 200]])), L.RegionLayout('r2', np.array([[10, 200], [590, 200], [590, 390], [10, 390]]))]
     try:
         with contextlib.redirect_stdout(io.StringIO()):
             out = ex.process_page(img, pl)
